@@ -75,7 +75,7 @@ def render_all(v):
 # environment and expression generator
 
 PLAIN = ["a", "b", "prod", "x-y", "my bucket", "arn:aws:s3:::b", "v1", "", "0", "7", "a,b", "k1", "s", "l", "M", "eu-west-1",
-         "A", "B", "é中", "x€y", "1.5", "None"]
+         "A", "B", "é中", "x€y", "1.5", "None", "Yes", "off", "no", "t", "AWS::NoValue "]
 BOOLISH = ["true", "TRUE", "False", "fAlSe", "True"]
 NAMES = ["A", "B", "Env", "L", "x:y", "AWS::Region", "AWS::AccountId", "é中", "P_1", "Missing", "Z9"]
 
